@@ -63,6 +63,18 @@ def control_aq(n: str, _nq: bool = False) -> str:
     return hostile_aq(n).replace('"', '!').replace("'", '$')
 
 
+# a canary that is *well-formed* markup on its own: code that re-parses source text as XML/HTML only succeeds on such text
+HOSTILE_WF = '<b onclick="zq{n}()">zq{n}<script>zq{n}</script>&lt;i&gt;</b>'
+
+
+def hostile_wf(n: str) -> str:
+    return HOSTILE_WF.replace('{n}', n)
+
+
+def control_wf(n: str) -> str:
+    return ''.join(TRANS.get(c, c) for c in hostile_wf(n))
+
+
 def control(n: str, nq: bool = False) -> str:
     return ''.join((TRANS_NQ if nq else TRANS).get(c, c) for c in hostile(n, nq))
 
@@ -75,7 +87,7 @@ def _lit(s: str) -> str:
 FIELDS = {
     'epytext': dict(param='@param a: pa @@CAN17@@', typ='@type a: C{{@@CNQ18@@}}', badparam='@param @@CAN19@@: unknown param',
                     rais='@raise @@CAN20@@: exc @@CAN35@@', ret='@return: r @@CAN21@@', see='@see: @@CAN22@@', unk='@unknownfield @@CAN23@@: x',
-                    ivar='@ivar iv: d @@CAN26@@', cvar='@cvar @@CAN27@@: bad name', rtype='@rtype: @@CNQ32@@', inline='C{{@@CAN36@@}} B{{@@CAN37@@}} U{{label<http://example.com/@@CAQ70@@>}} U{{http://example.com/@@CAQ71@@}}'),
+                    ivar='@ivar iv: d @@CAN26@@', cvar='@cvar @@CAN27@@: bad name', rtype='@rtype: @@CNQ32@@', inline='C{{@@CAN36@@}} B{{@@CAN37@@}} U{{label<http://example.com/@@CAQ70@@>}} U{{http://example.com/@@CAQ71@@}} L{{@@CAW74@@ <canpkg.mod.f>}} L{{@@CAW75@@ <nosuchtarget>}} U{{@@CAW76@@ <http://example.com/>}}'),
     'restructuredtext': dict(param=':param a: pa @@CAN17@@', typ=':type a: ``@@CNQ18@@``', badparam=':param @@CAN19@@: unknown param',
                              rais=':raise @@CAN20@@: exc @@CAN35@@', ret=':return: r @@CAN21@@', see=':see: @@CAN22@@', unk=':unknownfield @@CAN23@@: x',
                              ivar=':ivar iv: d @@CAN26@@', cvar=':cvar @@CAN27@@: bad name', rtype=':rtype: @@CNQ32@@', inline='``@@CAN36@@`` **@@CAN37@@** `label <http://example.com/@@CAQ70@@>`_ http://example.com/@@CAQ71@@\n\n.. image:: http://example.com/x.png\n   :alt: alt @@CAQ72@@\n\nTarget_ text.\n\n.. _Target: http://example.com/@@CAQ73@@'),
@@ -98,6 +110,16 @@ from twisted.python.deprecate import deprecated
 from incremental import Version
 V = '@@CAN4@@'
 """attr doc @@CAN5@@"""
+NB1 = '\xa0@@CAW80@@'
+NB2 = ['\xa0', '@@CAW81@@', '@@CAN82@@\xa0']
+WF = '@@CAW83@@'
+@deco('\xa0@@CAW84@@')
+def nbdeco(a='\xa0@@CAW85@@', b: '\xa0@@CAW86@@' = None):
+    """doc"""
+class NBBase:
+    pass
+class NBC(NBBase['\xa0@@CAW87@@']):
+    x: '\xa0@@CAW88@@' = '\xa0@@CAW89@@'
 CONST = {{'@@CAN6@@': ['@@CAN7@@', b'@@CAN8@@'], 'k': ('@@CAN9@@', 1)}}
 RE = __import__('re').compile('(?P<n>@@CAN39@@)+')
 def deco(*a, **k):
@@ -285,6 +307,7 @@ def _render_pair(res: core.Res, label: str, sources: Dict[str, Tuple[bool, str]]
                 text = re.sub(r'@@CAN(\d+)@@', lambda m: _lit(fn(m.group(1))), text)
                 text = re.sub(r'@@CNQ(\d+)@@', lambda m: _lit(fn(m.group(1), True)), text)
                 text = re.sub(r'@@CAQ(\d+)@@', lambda m: _lit((hostile_aq if variant == 'hostile' else control_aq)(m.group(1))), text)
+                text = re.sub(r'@@CAW(\d+)@@', lambda m: _lit((hostile_wf if variant == 'hostile' else control_wf)(m.group(1))), text)
                 parts = name.split('.')
                 if is_pkg:
                     d = src.joinpath(*parts)
@@ -318,8 +341,9 @@ def run_case(case: Dict[str, Any]) -> core.Res:
     res = core.Res()
     if case['part'] == 'D':
         fmt = case['docformat']
-        text = DIRECTED.format(**FIELDS[fmt])
-        res.c('canary_positions', len(set(re.findall(r'@@C(?:AN|NQ|AQ)(\d+)@@', text))))
+        # (the values are plain text, not templates: their doubled braces are un-doubled here)
+        text = DIRECTED.format(**{k: v.replace('{{', '{').replace('}}', '}') for k, v in FIELDS[fmt].items()})
+        res.c('canary_positions', len(set(re.findall(r'@@C(?:AN|NQ|AQ|AW)(\d+)@@', text))))
         res.setadd('docformats', fmt)
         sources = {'canpkg': (True, '"""Package @@CAN50@@."""\nfrom .mod import C as Moved\n__all__ = ["Moved"]\n'), 'canpkg.mod': (False, text)}
         _render_pair(res, f'directed/{fmt}/{case["theme"]}', sources, [f'--docformat={fmt}', f'--theme={case["theme"]}', '--process-types'])
